@@ -606,6 +606,10 @@ class Evaluator:
         summ.ends = ends
         summ.n_entry_conds = len(st0.conds)
         self.loops_seen.setdefault(s, []).append(summ)
+        for e in res:
+            # paths that leave the function from inside the loop (return / raise) still carry the loop's variables
+            if all(ls is not summ for ls in e.state.loops):
+                e.state.loops.append(summ)
         for a in after:
             a.loops.append(summ)
             if s.orelse:
@@ -884,6 +888,31 @@ class Evaluator:
         for t, s2, k in self._ev(test, st, mod, fi, depth):
             if k == 'raise':
                 out.append((None, s2, 'raise', t))
+                continue
+            t = _expand_any_all(t)
+            if t[0] in ('and', 'or') and len(t[1]) <= 4:
+                # a conjunction / disjunction that arrives as a term (any(x is None for x in (a, b)), a flag computed
+                # earlier): decided operand by operand with short-circuit, like the boolean operator itself
+                is_and = t[0] == 'and'
+
+                def rec(i, s_):
+                    if i == len(t[1]):
+                        out.append((is_and, s_, 'ok', None))
+                        return
+                    x = t[1][i]
+                    v_ = self.truth(x, s_)
+                    branches = [(v_, s_)] if v_ is not None else []
+                    if v_ is None:
+                        for b_ in (True, False):
+                            s3_ = s_.copy()
+                            self.assume(x, b_, s3_, getattr(test, 'lineno', 0))
+                            branches.append((b_, s3_))
+                    for tv_, sx in branches:
+                        if tv_ != is_and:
+                            out.append((tv_, sx, 'ok', None))
+                        else:
+                            rec(i + 1, sx)
+                rec(0, s2)
                 continue
             v = self.truth(t, s2)
             if v is not None:
@@ -1530,6 +1559,19 @@ def _is_array_expr(t):
     if t[0] == 'sub' and (t[2][0] in ('tuple', 'slice')) and _is_array_expr(t[1]):
         return True
     return False
+
+
+def _expand_any_all(t):
+    """any(E(v) for v in (a, b, ..))  ->  E(a) or E(b) or ..   (all -> and) for a short literal sequence."""
+    if t[0] == 'call' and t[1] in ('builtins.any', 'builtins.all') and len(t[2]) == 1 and not t[3]:
+        c = t[2][0]
+        if c[0] == 'comp' and len(c[3]) == 1 and not c[3][0][2] and c[3][0][1][0] in ('tuple', 'list') \
+                and 1 <= len(c[3][0][1][1]) <= 4:
+            var, it, _ = c[3][0]
+            return ('or' if t[1].endswith('any') else 'and', tuple(substitute(c[2], {var: x}) for x in it[1]))
+        if c[0] in ('tuple', 'list') and 1 <= len(c[1]) <= 4:
+            return ('or' if t[1].endswith('any') else 'and', tuple(c[1]))
+    return t
 
 
 _SYNTH = {}
